@@ -105,7 +105,7 @@ def rand_text(rng, n, codec):
     return ''.join(out)
 
 
-def monitor(rep, rc, frames, cid, encoded, label, replay):
+def monitor(rep, rc, frames, cid, encoded, label, replay, addr=None):
     """Independent oracle on the frames one publish handed to write_frames."""
     sig = None
     what = None
@@ -133,6 +133,11 @@ def monitor(rep, rc, frames, cid, encoded, label, replay):
                     sig = 'C04/wire-size-exceeds-frame-max'
                     what = 'body frame is %d bytes on the wire, negotiated frame_max (TuneOk) is %d' % (w, announced)
                     break
+    if not sig and addr is not None:
+        # the one Basic.Publish is the one this call asked for: exchange, routing key and the mandatory flag as given
+        got = (frames[0].exchange, frames[0].routing_key, bool(frames[0].mandatory))
+        if got != addr:
+            sig, what = 'C04/method-frame-fields', 'Basic.Publish carries (exchange, routing key, mandatory) = %r, the call gave %r' % (got, addr)
     if sig:
         rep.violation(sig, '%s (%s)' % (what, label), replay)
 
@@ -198,6 +203,7 @@ def check(rep):
                         meta.append({'utf8': label})
                 rc.written.clear()
                 rk, ex = wire.rand_name(rng), wire.rand_name(rng)
+                mand = rng.random() < 0.2
                 via = 'basic'
                 if kind == 'bytes' and rng.random() < 0.25:
                     # the same payload published through a Message object as a consumer that forwards it would: the object
@@ -208,7 +214,7 @@ def check(rep):
                     if rng.random() < 0.5:
                         mprops['content_encoding'] = rng.choice(['utf-16-le', 'latin-1', 'binary', ''])
                     try:
-                        Message(ch, body=body, properties=mprops, auto_decode=True).publish(rk, ex, mandatory=rng.random() < 0.2)
+                        Message(ch, body=body, properties=mprops, auto_decode=True).publish(rk, ex, mandatory=mand)
                     except Exception as why:   # noqa  -- a bytes payload needs no codec: nothing may be raised
                         rep.violation('C04/publish-of-bytes-raises', 'Message.publish of a %d byte payload (content_encoding %r) raised %r' % (
                             len(body), mprops.get('content_encoding'), why),
@@ -226,15 +232,15 @@ def check(rep):
                     mo = Message(ch, body=body, properties=mprops, auto_decode=True)
                     _ = mo.content_type
                     mo.content_encoding = codec
-                    mo.publish(rk, ex, mandatory=rng.random() < 0.2)
+                    mo.publish(rk, ex, mandatory=mand)
                 else:
-                    ch.basic.publish(body, rk, ex, properties=props, mandatory=rng.random() < 0.2)
+                    ch.basic.publish(body, rk, ex, properties=props, mandatory=mand)
                 rep.count('published_via', via)
                 cid, frames = rc.written[-1]
                 replay = {'srv_frame_max': srv, 'body_len': len(encoded), 'kind': kind,
                           'body_hex': encoded.hex() if len(encoded) <= 256 else None,
                           'body_byte': encoded[0] if encoded and len(encoded) > 256 else None}
-                monitor(rep, rc, frames, cid, encoded, label, replay)
+                monitor(rep, rc, frames, cid, encoded, label, replay, addr=(ex, rk, mand))
                 wire_pass(rep, rng, rc, cid, frames, encoded, label, replay)
                 slices = [f.value for f in frames[2:]]
                 boundary = len(encoded) % s in (0, 1, s - 1) or len(slices) >= 2
